@@ -63,7 +63,11 @@ ENTRY = {'coq_dir': 'C05',
                'the shared counter and are used once), shown necessary by a witness. Over whole histories (Once.v, a token argument on the '
                'ghost state): an id is answered by at most one of ConnectionOpened / OpenFailure and by at most one of outbound '
                'ConnectionEstablished / DialFailure, what is still owed has not been answered, nothing is answered for an id the owner '
-               'never passed in. The SAME contract is proved for WebSocketTransport and QuicTransport (C05_tr_* / C05_ws_* / C05_quic_*): '
+               'never passed in. Never silence (Settle.v, a measure argument over owed opens + owed negotiates + addresses still being '
+               'tried, using the progress theorems): from every reachable state the environment has a finite schedule of attempts ending '
+               'and polls after which nothing is owed, and an environment event takes an id out of the owed sets only by emitting its '
+               'answer; a refused dial changes nothing and an open none of whose addresses the transport takes is answered by OpenFailure '
+               'at the next poll. The SAME contract is proved for WebSocketTransport and QuicTransport (C05_tr_* / C05_ws_* / C05_quic_*): '
                'the three transports keep the same books with the same poll_next, and differ in their front end, which is modelled per '
                'transport over the multiaddress grammar of coq/C10 (Variants.v: expect_of = which addresses dial accepts and which '
                'addresses of an open become attempts: TCP multiaddr_to_socket_address, optional /p2p; WebSocket multiaddr_into_url, '
@@ -80,20 +84,21 @@ ENTRY = {'coq_dir': 'C05',
                'tcp/mod.rs, websocket/mod.rs (quick + thorough tier) and quic/mod.rs (thorough tier only: aux stream, harness built with '
                '--features quic) by the transport streams; still assumed there: the negotiation (connection.rs negotiate_connection) '
                'authenticates the remote and honours its dialed_peer argument (exercised with real handshakes, not modelled), timeouts '
-               'fire (connection_open_timeout / the dial deadline are the model events "attempt failed" / EExpire; 3% of the transport-stream cases and the stored timeout cases, e.g. '
-               'corpus/C05/tcp_timeouts.case run with a 250 ms timeout and end one future at a time by waiting, all other cases use 60 s '
-               'timeouts that never fire), tokio wakes ready futures, the OS delivers socket events, the listener does not terminate; the '
-               'composition of the TCP model with the manager model (caller_ok is what the manager does: ids come from next_connection_id, '
-               'li_fresh) is stated, not proved; "accept futures succeed" is still an assumption; QUIC: the code tells a dialed from an '
-               'accepted connection by its pending_dials entry (TCP / WebSocket carry the endpoint inside the negotiated connection); the '
-               "model's endpoint direction is TCP's, the two coincide for an owner that draws its ids (invariant c_conn_dial), so the QUIC "
-               "stream keeps to such owners and the dump maps QUIC's pending_dials to the model's plus the ids of pending negotiate "
-               'futures; QUIC has no log line for a failed inbound handshake (that mark is not compared for QUIC); which of the addresses '
-               'of an open are in flight at a time (max_parallel_dials / buffer_unordered; QUIC: all) is not modelled: the model lets the '
-               'environment answer any attempt that is left, a superset; /wss: the TLS layer is environment (exercised against a plain '
-               'listener: the attempt fails; F-C05g); the transports are modelled one at a time (the multi-transport Opening of the '
-               "manager is the other model); the address book is abstracted to 'has an address' (scores are C10); `.await` on full "
-               'protocol channels inside the DialFailure fan-out is not modelled.',
+               'fire (connection_open_timeout / the dial deadline are the model events "attempt failed" / EExpire; 3% of the '
+               'transport-stream cases and the stored timeout cases, e.g. corpus/C05/tcp_timeouts.case run with a 250 ms timeout and end '
+               'one future at a time by waiting, all other cases use 60 s timeouts that never fire), tokio wakes ready futures, the OS '
+               'delivers socket events, the listener does not terminate; the composition of the TCP model with the manager model '
+               '(caller_ok is what the manager does: ids come from next_connection_id, li_fresh) is stated, not proved; "accept futures '
+               'succeed" is still an assumption; QUIC: the code tells a dialed from an accepted connection by its pending_dials entry (TCP '
+               "/ WebSocket carry the endpoint inside the negotiated connection); the model's endpoint direction is TCP's, the two "
+               'coincide for an owner that draws its ids (invariant c_conn_dial), so the QUIC stream keeps to such owners and the dump '
+               "maps QUIC's pending_dials to the model's plus the ids of pending negotiate futures; QUIC has no log line for a failed "
+               'inbound handshake (that mark is not compared for QUIC); which of the addresses of an open are in flight at a time '
+               '(max_parallel_dials / buffer_unordered; QUIC: all) is not modelled: the model lets the environment answer any attempt that '
+               'is left, a superset; /wss: the TLS layer is environment (exercised against a plain listener: the attempt fails; F-C05g); '
+               'the transports are modelled one at a time (the multi-transport Opening of the manager is the other model); the address '
+               "book is abstracted to 'has an address' (scores are C10); `.await` on full protocol channels inside the DialFailure fan-out "
+               'is not modelled.',
  'trusted_base': ['transport contract of the feasible manager stream: open/dial/negotiate calls succeed, each is answered once unless '
                   'cancelled, the reported peer is the dialled one: for TCP, WebSocket and QUIC proved for the model coq/Tcp (C05_tcp_* / '
                   'C05_tr_* / C05_ws_* / C05_quic_* theorems) and tied to the code by the transport streams (QUIC: thorough tier only); '
